@@ -448,6 +448,12 @@ def run(prog, chk):
     if memrules.dup_field_correspondence(prog, r7) < 5:
         raise Broken("fewer than 5 duplicated-field stores found")
 
+    r10 = chk.rule("R10-hash-key-length", "every value handed out in a packet or table is filed under u_strlen(key) * sizeof(UChar) "
+                   "bytes of the very key that is stored with it: a length taken from another name makes the value unreachable "
+                   "by its name (shared with C09 R5 / C19 R7)", primary=False, floor=5)
+    if memrules.hash_key_length(prog, r10) < 5:
+        raise Broken("fewer than 5 uthash insertions found")
+
     r9 = chk.rule("R9-string-field-order", "serialiser and deserialiser of one object agree on the order of its strings (a table "
                   "entry's normalised key, then its original spelling, then the value's text)", primary=False, floor=3)
     if ustring_field_order(prog, r9) < 3:
